@@ -483,3 +483,13 @@ func (l *Laws) Observe(b, n, where string, gen, metagen int64) string {
 	}
 	return ""
 }
+
+// Seen returns every generation the name was ever acknowledged with, ascending.
+func (l *Laws) Seen(b, n string) []int64 {
+	var out []int64
+	for g := range l.seen[key(b, n)] {
+		out = append(out, g)
+	}
+	sort.Slice(out, func(i, j int) bool { return out[i] < out[j] })
+	return out
+}
